@@ -212,9 +212,12 @@ def lookAt(ref_point_1, ref_point_2):
     try:
         ttm = tm(R2)
     except:
-        vb += np.array([0.00001, .0000001, 0.0])
+        if not np.any(vb-va):
+            vb += np.array([0.00001, .0000001, 0.0])
         zax = mr.Normalize(vb-va)
-        xax = mr.Normalize(np.cross(up, zax))
+        xax = np.cross(up, zax)
+        # target straight above or below: z is exact, any perpendicular x will do
+        xax = mr.Normalize(xax) if np.any(xax) else np.array([1.0, 0.0, 0.0])
         yax = np.cross(zax, xax)
         R2 = np.eye(4)
         R2[0:3, 0:3] = np.array([xax, yax, zax]).T
